@@ -37,29 +37,16 @@ timeout: 150
 */
 #include "vprelude.h"
 #include "src/conf.c"
+#define VERIF_CT_REGISTER
 #include "conf.h"
 
 long w_idx, w_cnt;
 
 #ifdef U_CTX_STATE
-unsigned char spifconf_register_context_state(unsigned char ctx_id)
-__CPROVER_requires(CTXSTK_INV && ctx_state_idx < 255)
-__CPROVER_assigns(ctx_state, ctx_state_idx, ctx_state_cnt, __CPROVER_object_whole(ctx_state))
-__CPROVER_frees(ctx_state)
-__CPROVER_ensures(CTXSTK_POST)
-__CPROVER_ensures(ctx_state_idx == __CPROVER_old(ctx_state_idx) + 1 && __CPROVER_return_value == ctx_state_idx)
-__CPROVER_ensures(ctx_state[ctx_state_idx].ctx_id == ctx_id && ctx_state[ctx_state_idx].state == NULL)
-#ifdef U_PRESERVE
-/* entries below the new top are preserved */
-__CPROVER_ensures(vg_k > __CPROVER_old(ctx_state_idx) ||
-                  (ctx_state[vg_k].ctx_id == __CPROVER_old(ctx_state[vg_k].ctx_id) &&
-                   ctx_state[vg_k].state == __CPROVER_old(ctx_state[vg_k].state)))
-#endif
-;
+/* contract: contracts/conf.h (VERIF_CT_REGISTER) */
 void harness(void)
 {
     unsigned char id = nondet_uchar();
-    __CPROVER_assume(vg_k <= ctx_state_idx);
     w_idx = ctx_state_idx; w_cnt = ctx_state_cnt;
     spifconf_register_context_state(id);
     VERIF_CANARY();
@@ -67,27 +54,11 @@ void harness(void)
 #endif
 
 #ifdef U_FSTATE
-unsigned char spifconf_register_fstate(FILE *fp, spif_charptr_t path, spif_charptr_t outfile, unsigned long line, unsigned char flags)
-__CPROVER_requires(FSTK_INV && fstate_idx < 255)
-__CPROVER_requires(fp != NULL && path != NULL && line <= 0xffffffffUL)
-__CPROVER_assigns(fstate, fstate_idx, fstate_cnt, __CPROVER_object_whole(fstate))
-__CPROVER_frees(fstate)
-__CPROVER_ensures(FSTK_POST)
-__CPROVER_ensures(fstate_idx == __CPROVER_old(fstate_idx) + 1 && __CPROVER_return_value == fstate_idx)
-__CPROVER_ensures(fstate[fstate_idx].fp == fp && fstate[fstate_idx].path == path && fstate[fstate_idx].outfile == outfile
-                  && fstate[fstate_idx].line == (spif_uint32_t) line && fstate[fstate_idx].flags == flags)
-#ifdef U_PRESERVE
-__CPROVER_ensures(vg_k > __CPROVER_old(fstate_idx) ||
-                  (fstate[vg_k].fp == __CPROVER_old(fstate[vg_k].fp) && fstate[vg_k].path == __CPROVER_old(fstate[vg_k].path) &&
-                   fstate[vg_k].outfile == __CPROVER_old(fstate[vg_k].outfile) && fstate[vg_k].line == __CPROVER_old(fstate[vg_k].line) &&
-                   fstate[vg_k].flags == __CPROVER_old(fstate[vg_k].flags)))
-#endif
-;
+/* contract: contracts/conf.h (VERIF_CT_REGISTER) */
 void harness(void)
 {
     FILE *fp = nondet_ptr(); spif_charptr_t path = nondet_ptr(), outfile = nondet_ptr();
     unsigned long line = nondet_ulong(); unsigned char flags = nondet_uchar();
-    __CPROVER_assume(vg_k <= fstate_idx);
     w_idx = fstate_idx; w_cnt = fstate_cnt;
     spifconf_register_fstate(fp, path, outfile, line, flags);
     VERIF_CANARY();
